@@ -123,6 +123,8 @@ struct ChildSt {
     up_err: Cell<bool>,
     /// global sequence number of the poll in which this child answered Ready (0 = not yet)
     done_seq: Cell<usize>,
+    /// the child panics when it is polled (C06: unwinding through a combinator must not lose or double-drop anything)
+    panic_on_poll: Cell<bool>,
 }
 type St = Rc<ChildSt>;
 
@@ -168,6 +170,9 @@ impl Future for Fut {
         st.woken_since_poll.set(false);
         if st.done.get() {
             st.polled_after_done.set(true);
+        }
+        if st.panic_on_poll.get() {
+            panic!("scripted child panic");
         }
         if st.ready.get() {
             if st.wake_on_ready.get() {
@@ -608,7 +613,7 @@ fn collections_history(prop: &'static str, rng: &mut Rng, it: usize, skip_refuse
                         Poll::Ready(None) => {
                             hist.push("poll -> None".into());
                             if !model.is_empty() {
-                                fail(&["C02"], &hist, format!("Ready(None) while {} futures/outputs are still held", model.len()));
+                                fail(if coll.ordered() { &["C02", "C04"] } else { &["C02"] }, &hist, format!("Ready(None) while {} futures/outputs are still held{}", model.len(), if coll.ordered() { " (finished outputs stay parked: the position bookkeeping of the ordered collection is off)" } else { "" }));
                             }
                         }
                         Poll::Pending => {
@@ -704,7 +709,7 @@ fn collections_history(prop: &'static str, rng: &mut Rng, it: usize, skip_refuse
                 }
                 Poll::Ready(None) => {
                     if !model.is_empty() {
-                        fail(&["C02"], &hist, format!("Ready(None) while {} entries are held", model.len()));
+                        fail(if coll.ordered() { &["C02", "C04"] } else { &["C02"] }, &hist, format!("Ready(None) while {} entries are held", model.len()));
                     }
                     quiet = true;
                     break;
@@ -725,7 +730,7 @@ fn collections_history(prop: &'static str, rng: &mut Rng, it: usize, skip_refuse
             guard += 1;
             if guard > 10_000 {
                 hist.push("(drain)".into());
-                fail(&["C02","C01"], &hist, format!("outputs {:?} never yielded although every future is ready and woken", model));
+                fail(if coll.ordered() { &["C02", "C01", "C04"] } else { &["C02", "C01"] }, &hist, format!("outputs {:?} never yielded although every future is ready and woken", model));
                 break;
             }
             match coll.poll(&mut cx) {
@@ -741,7 +746,7 @@ fn collections_history(prop: &'static str, rng: &mut Rng, it: usize, skip_refuse
                 }
                 Poll::Ready(None) => {
                     hist.push("(drain)".into());
-                    fail(&["C02"], &hist, format!("Ready(None) while {:?} are still held", model));
+                    fail(if coll.ordered() { &["C02", "C04"] } else { &["C02"] }, &hist, format!("Ready(None) while {:?} are still held", model));
                     break;
                 }
                 Poll::Pending => {}
@@ -1167,6 +1172,90 @@ impl Stream for FutStream {
 }
 
 // ------------------------------------------------------------------------------------------------ join_all / try_join_all (C06 C07 C04 C18)
+// ------------------------------------------------------------------------------------------------ join_all / try_join_all: special shapes (C06)
+/// a future WITHOUT drop glue (a shared reference and an integer) whose output HAS drop glue
+struct PFut<'a> { id: usize, st: &'a St }
+impl<'a> Future for PFut<'a> {
+    type Output = Out;
+    fn poll(self: Pin<&mut Self>, cx: &mut Context<'_>) -> Poll<Out> {
+        let st = self.st;
+        st.polls.set(st.polls.get() + 1);
+        if st.ready.get() { st.done.set(true); Poll::Ready(Out { id: self.id, st: st.clone() }) } else { *st.waker.borrow_mut() = Some(cx.waker().clone()); Poll::Pending }
+    }
+}
+struct PTFut<'a>(PFut<'a>);
+impl<'a> Future for PTFut<'a> {
+    type Output = Result<Out, usize>;
+    fn poll(mut self: Pin<&mut Self>, cx: &mut Context<'_>) -> Poll<Self::Output> {
+        let err = self.0.st.err.get();
+        let id = self.0.id;
+        match Pin::new(&mut self.0).poll(cx) { Poll::Ready(o) => if err { Poll::Ready(Err(id)) } else { Poll::Ready(Ok(o)) }, Poll::Pending => Poll::Pending }
+    }
+}
+fn run_join_special(prop: &'static str) {
+    if prop != "C06" {
+        return;
+    }
+    let tw = Arc::new(CountWaker(AtomicUsize::new(0)));
+    let waker = Waker::from(tw.clone());
+    let mut cx = Context::from_waker(&waker);
+    // (A) children without drop glue, outputs with drop glue, the combinator is cancelled after some children resolved
+    for try_variant in [false, true] {
+        for n in 2..=4usize {
+            for ready_mask in 1..(1usize << n) - 1 {
+                let sts: Vec<St> = (0..n).map(|i| { let s: St = Rc::new(ChildSt::default()); s.ready.set((ready_mask >> i) & 1 == 1); s }).collect();
+                let scenario = format!("{}: {n} plain-data futures (no drop glue; their outputs have drop glue), ready mask {ready_mask:#b}", if try_variant { "try_join_all" } else { "join_all" });
+                if try_variant {
+                    let mut j = Box::pin(try_join_all(sts.iter().enumerate().map(|(i, s)| PTFut(PFut { id: i, st: s })).collect::<Vec<_>>()));
+                    let r = j.as_mut().poll(&mut cx);
+                    drop(r);
+                    drop(j);
+                } else {
+                    let mut j = Box::pin(join_all(sts.iter().enumerate().map(|(i, s)| PFut { id: i, st: s }).collect::<Vec<_>>()));
+                    let r = j.as_mut().poll(&mut cx);
+                    drop(r);
+                    drop(j);
+                }
+                for (i, s) in sts.iter().enumerate() {
+                    if s.done.get() && s.out_dropped.get() != 1 {
+                        report(&Fail { prop, scenario, history: vec!["poll -> Pending".into(), "(drop the combinator)".into()], what: format!("the output of input {i} was produced but dropped {} times", s.out_dropped.get()) });
+                    }
+                }
+            }
+        }
+    }
+    // (B) a child panics while it is polled: the unwind passes through the combinator, which is then dropped
+    for try_variant in [false, true] {
+        for n in 2..=4usize {
+            for bad in 0..n {
+                let sts: Vec<St> = (0..n).map(|i| { let s: St = Rc::new(ChildSt::default()); if i == bad { s.panic_on_poll.set(true); } else { s.ready.set(i % 2 == 0 || i + 1 == n); } s }).collect();
+                let scenario = format!("{}: {n} futures, input {bad} panics when polled, the others {:?} are ready", if try_variant { "try_join_all" } else { "join_all" }, sts.iter().enumerate().filter(|(i, s)| *i != bad && s.ready.get()).map(|(i, _)| i).collect::<Vec<_>>());
+                let mut hist: Vec<String> = vec![];
+                let res = std::panic::catch_unwind(std::panic::AssertUnwindSafe(|| {
+                    if try_variant {
+                        let mut j = Box::pin(try_join_all(sts.iter().enumerate().map(|(i, s)| TFut(Fut::new(i, s.clone()))).collect::<Vec<_>>()));
+                        let _ = j.as_mut().poll(&mut cx);
+                        let _ = j.as_mut().poll(&mut cx);
+                    } else {
+                        let mut j = Box::pin(join_all(sts.iter().enumerate().map(|(i, s)| Fut::new(i, s.clone())).collect::<Vec<_>>()));
+                        let _ = j.as_mut().poll(&mut cx);
+                        let _ = j.as_mut().poll(&mut cx);
+                    }
+                }));
+                hist.push(format!("poll (child {bad} panics: {}); the combinator is dropped by the unwind", if res.is_err() { "unwound" } else { "no panic reached the caller" }));
+                for (i, s) in sts.iter().enumerate() {
+                    if s.dropped.get() != 1 {
+                        report(&Fail { prop, scenario, history: hist, what: format!("input future {i} dropped {} times", s.dropped.get()) });
+                    }
+                    if s.done.get() && s.out_dropped.get() != 1 {
+                        report(&Fail { prop, scenario, history: hist, what: format!("the output of input {i} was produced but dropped {} times", s.out_dropped.get()) });
+                    }
+                }
+            }
+        }
+    }
+}
+
 fn run_join(prop: &'static str, seed: u64, iters: usize) {
     let mut rng = Rng(seed.wrapping_mul(0xA24BAED4963EE407) | 1);
     for _ in 0..iters {
@@ -1969,6 +2058,7 @@ fn main() {
         "C03" => run_waker_lifecycle(prop),
         "C06" | "C07" => {
             run_waker_lifecycle(prop);
+            run_join_special(prop);
             run_join(prop, seed, iters);
             run_collections(prop, seed, iters / 4);
             run_adapters(prop, seed, iters / 4);
